@@ -126,7 +126,11 @@ def main():
                 key = f"{tname}:mask={mask:x}"
                 s.case(None, key, sample=dict(type=tname, mask=hex(mask)))
                 path = os.path.join(tmpdir, "d.json")
-                io.save(obj, path)
+                try:
+                    io.save(obj, path)
+                except Exception as e:   # a valid collection must be savable: a failing save is a finding, not a crash of this check
+                    s.fail(f"save_raises:{tname}:{type(e).__name__}", f"{key}: io.save raised {type(e).__name__}: {str(e)[:200]}")
+                    continue
                 check_document(s, key, json.load(open(path)), obj)
     finally:
         for f in os.listdir(tmpdir):
